@@ -52,7 +52,87 @@ File::Mode mode_of(const std::string &m) {
     return File::Mode::AppendText;
 }
 
+// round trip of an arbitrary (seeded) byte string: written in chunks through File, read back in every way File offers
+void run_roundtrip(const Execution &ex) {
+    std::string base = ex.cfg.str("dir", "/tmp") + "/r-" + ex.id + "-" + std::to_string(getpid());
+    fs::create_directories(base);
+    std::string path = base + "/blob";
+    uint64_t st = (uint64_t) ex.cfg.num("seed", 1) * 0x9E3779B97F4A7C15ULL + 1;
+    auto next = [&]() {
+        st ^= st << 13;
+        st ^= st >> 7;
+        st ^= st << 17;
+        return st;
+    };
+    size_t len = (size_t) ex.cfg.num("len", 0);
+    std::string data(len, '\0');
+    int flavour = (int) ex.cfg.num("flavour", 0);   // 0 uniform bytes, 1 mostly special bytes, 2 text-like with CR/LF
+    static const unsigned char special[] = {0x00, 0x0A, 0x0D, 0x1A, 0xFF, 0x7F, 0x80, 0xFE, 0x20};
+    for (size_t i = 0; i < len; ++i) {
+        uint64_t r = next();
+        data[i] = flavour == 0 ? (char) (r >> 24) : flavour == 1 ? (char) special[(r >> 20) % sizeof special] : (char) ((r >> 20) % 7 == 0 ? '\n' : (r >> 30) % 11 == 0 ? '\r' : 'a' + (r >> 40) % 26);
+    }
+    bool append_second = ex.cfg.num("append", 0) != 0;
+    bool text = ex.cfg.num("text", 0) != 0;
+    size_t first = append_second ? len / 2 : len;
+    std::string problem;
+    try {
+        {   // write (truncating), in random chunk sizes, alternating the two write overloads
+            File f(path, text ? File::Mode::WriteText : File::Mode::Write);
+            size_t off = 0;
+            int k = 0;
+            while (off < first) {
+                size_t c = std::min<size_t>(first - off, 1 + next() % 9000);
+                size_t n = (k++ % 2) ? f.write(data.substr(off, c)) : f.write(data.data() + off, c);
+                if (n != c) problem = "write() returned " + std::to_string(n) + " for " + std::to_string(c) + " bytes";
+                off += c;
+            }
+            if (f.size() != first) problem = "size() of the handle being written = " + std::to_string(f.size()) + ", written " + std::to_string(first);
+        }
+        if (append_second) {
+            File f(path, text ? File::Mode::AppendText : File::Mode::Append);
+            f.write(data.data() + first, len - first);
+        }
+        std::error_code ec;
+        if (fs::file_size(path, ec) != len) problem = "file on disk has " + std::to_string(fs::file_size(path, ec)) + " bytes, written " + std::to_string(len);
+        auto diff = [&](const std::string &got, const char *how) {
+            if (got == data || !problem.empty()) return;
+            size_t i = 0;
+            while (i < got.size() && i < data.size() && got[i] == data[i]) ++i;
+            problem = std::string(how) + ": " + std::to_string(got.size()) + " bytes read back, first difference at offset " + std::to_string(i) + " of " + std::to_string(len);
+        };
+        for (int mode = 0; mode < 2; ++mode) {
+            File f(path, mode ? File::Mode::ReadText : File::Mode::Read);
+            if (f.size() != len) problem = "size() = " + std::to_string(f.size()) + ", file has " + std::to_string(len);
+            auto a = f.read();
+            diff(std::string((const char *) a.array(), a.size()), mode ? "read() in text mode" : "read()");
+            diff(f.readStr(), mode ? "readStr() in text mode" : "readStr()");
+            f.seek(0, File::Origin::Start);
+            std::string buf(len + 8, '\x55');
+            size_t got = f.read(buf.data(), 1, len + 8);
+            diff(buf.substr(0, got), "read(buffer, 1, n)");
+            if (len > 10) {
+                f.seek((long) (len / 3), File::Origin::Start);
+                long before = f.tell();
+                size_t sz = f.size();
+                if (f.tell() != before || sz != len) problem = problem.empty() ? "size() moved the position or is wrong after a seek" : problem;
+                std::string tail = f.readStr();   // read() always returns the whole file
+                diff(tail, "readStr() after a seek");
+            }
+        }
+    } catch (const tulz::Exception &e) {
+        problem = std::string("unexpected exception: ") + e.what();
+    }
+    out().raw("\"e\":\"RoundTrip\",\"len\":" + std::to_string(len) + ",\"ok\":" + (problem.empty() ? "true" : "false") + ",\"problem\":" + jstr(problem));
+    std::error_code ec;
+    fs::remove_all(base, ec);
+}
+
 void run_exec(const Execution &ex) {
+    if (ex.cfg.num("roundtrip", 0)) {
+        run_roundtrip(ex);
+        return;
+    }
     int pal = (int) ex.cfg.num("pal", 0);
     size_t mult = (size_t) ex.cfg.num("mult", 1);
     std::string base = ex.cfg.str("dir", "/tmp") + "/f-" + ex.id + "-" + std::to_string(getpid());
